@@ -3,9 +3,46 @@ import KitModel.Enc
 import KitModel.EncReal
 /-! Driver for property C02: `kitdrv C02` — same line protocol as `kitdrv C01`
 (`pst` toy-AEAD tamper loop, `rh`, `dec` on mutated real documents); see `KitModel/EncDrv.lean`
-and `KitModel/EncReal.lean`. -/
+and `KitModel/EncReal.lean`.
+
+Segment-level ops of this property (function-level tie of `nonceForSegment`, `EncryptSegment`,
+`DecryptSegment` at chosen segment numbers, `harness/cmd/c02nonce`):
+* `nonce np=<hex> i=<n> last=<0|1>` → `nonce=<hex>`: `Kit.Enc.nonceFor` over the regenerated layout.
+* `segseal cph=<1|2> fk=<hex> np=<hex> i=<n> last=<0|1> data=<hex>` → `out=<hex>` / `err=<name>`:
+  `encryptSeg` over the Lean-native AEAD under the payload key derived from `fk`, `np`.
+* `segopen …same keys…` → `out=<hex>` / `err=<name>`: `decryptSeg`. -/
 namespace Driver.C02
+open Kit Kit.Enc
+
+def answerSeg (l : Line) : Option String :=
+  match l.op with
+  | "nonce" => some <| (do
+      let np ← l.hex? "np"
+      let i ← l.nat? "i"
+      let last := (l.get? "last").getD "0" == "1"
+      pure s!"nonce={toHex (nonceFor Real.P np i last)}" : Option String).getD "bad-request"
+  | "segseal" | "segopen" => some <| (do
+      let fk ← l.hex? "fk"
+      let np ← l.hex? "np"
+      let cph ← l.nat? "cph"
+      let i ← l.nat? "i"
+      let last := (l.get? "last").getD "0" == "1"
+      let data ← l.hex? "data"
+      let pk := payloadKey Real.realCrypto Real.P fk np
+      let fn : ProcFn :=
+        if l.op == "segseal" then encryptSeg Real.realCrypto Real.P cph pk np
+        else decryptSeg Real.realCrypto Real.P cph pk np
+      match fn data i last with
+      | .ok b => pure s!"out={toHex b}"
+      | .error e => pure s!"err={e.name}" : Option String).getD "bad-request"
+  | _ => none
+
+def answer (line : String) : String :=
+  match answerSeg (parseLine line) with
+  | some s => s
+  | none => Kit.Enc.Real.answer line
+
 def main (_args : List String) : IO UInt32 := do
-  Kit.lineLoop (fun (_ : Unit) line => ((), Kit.Enc.Real.answer line)) ()
+  Kit.lineLoop (fun (_ : Unit) line => ((), answer line)) ()
   return 0
 end Driver.C02
